@@ -53,8 +53,10 @@ def check(chk, repo):
             if e.kind == "call" and e.name == "remove" and e.value and e.value[0] == "hremove":
                 h = e.value[1]
                 from ..schema import nonempty_guard
-                rep.ev("CLIENT-nonempty", e, any(nonempty_guard(g, pol, h) for g, pol in e.guards),
-                       "H.remove() is not dominated by `not H.is_empty()`")
+                counted = any(cp.counted and cp.remove_event is e for cp in comps)
+                rep.ev("CLIENT-nonempty", e, counted or any(nonempty_guard(g, pol, h) for g, pol in e.guards),
+                       "H.remove() is not dominated by `not H.is_empty()` (nor is it the single removal of a loop "
+                       "that runs once per node of a fully seeded queue)")
     chk.floor("distinct H.update call sites in the models", sites, 5)
     chk.undecided.append("extremal-element / exactly-once semantics over all operation histories")
     chk.assumptions.append("Python list indexing semantics; Heap is used single-threaded")
